@@ -144,21 +144,23 @@ class C06(Prop):
         "written_file", "open_written", "open_rejects", "findName_stored", "findName_alias", "findName_absent", "findNumber_sorted",
         "fileInfo_spec", "internal_eq_external", "auto_switch_trigger", "external_is_permanent", "history_write", "history_index_correct", "history_alias", "history_enumeration", "findSubseq_spec", "findSubseq_erange", "exCross_wf",
         "findSubseq_alias", "findSubseq_absent", "open_any_bytes", "bsearch_any_array", "findName_any_index", "findName_no_fault",
-        "findNumber_any_index", "fileInfo_any_index", "findSubseq_any_index", "written_index_no_fault_conditions", "addFile_never_checks_names",
+        "findNumber_any_index", "fileInfo_any_index", "findSubseq_any_index", "written_index_no_alias_chain", "addFile_never_checks_names",
         "cross_class_duplicate_rejected")]
     claimed = True
     technique = ("Lean 4 proof about an executable model of esl_ssi.c (writer, on-disk layout, binary search, alias indirection) "
                  "+ exact differential correspondence (index bytes and every lookup) with the ASan/UBSan-built library")
     level_text = ("Theorems (Lean 4, no bound on the number or length of keys beyond names/keys < 64 KB and < 2^40 keys) about an executable model that mirrors esl_ssi.c: "
-                  "big-endian u16/u32/u64/offset codecs round-trip every value; THIS binary search is correct on every strictly strcmp-sorted record array; "
+                  "big-endian u16/u32/u64/offset codecs round-trip every value; THIS binary search is correct on every strictly strcmp-sorted record array and, on ANY record array, never returns another key's record; "
                   "for every history of AddFile/SetSubseq/AddKey/AddAlias calls with the switch to the external sort at any point, Write succeeds iff ALL keys are distinct — no primary key twice, no alias twice, no alias that is also a primary key "
-                  "(else eslEDUP and no index file; the cross-class case is cross_duplicate()'s merge pass over the two sorted streams, modelled line by line), and the external path emits the same bytes as the in-memory path; the automatic switch fires exactly when current_newssi_size() >= max_ram before an Add call and is permanent; on the written bytes Open succeeds, FindName returns exactly the stored record for every primary key and "
-                  "every alias, eslENOTFOUND for every other string, FindNumber enumerates the keys in strcmp order, FileInfo returns name/format/line geometry. "
-                  "The model is tied to the working tree on every run by an exact differential run (index bytes and every lookup) against the ASan/UBSan build, plus an independent oracle on the library's outputs.")
-    level_note = ("Alias lookup assumes AddAlias's documented precondition (the target is a registered primary key). The former known finding C06:cross-class-duplicate is repaired "
-                  "(cross_duplicate() in esl_newssi_Write); its witness is a regression case and `cross_class_duplicate_rejected` a theorem. "
+                  "(else eslEDUP and no index file; the cross-class case is cross_duplicate()'s merge pass over the two sorted streams, modelled line by line), and the external path emits the same bytes as the in-memory path; "
+                  "the automatic switch fires exactly when current_newssi_size() >= max_ram before an Add call and is permanent; on the written bytes Open succeeds, FindName returns exactly the stored record for every primary key and "
+                  "every alias, eslENOTFOUND for every other string, FindNumber enumerates the keys in strcmp order (eslENOTFOUND outside 0..n-1), FileInfo returns name/format/line geometry for every handle, FindSubseq computes the documented outcome for keys and aliases. "
+                  "On ANY byte string (truncated, corrupted, unsorted index) Open/FindName/FindNumber/FindSubseq/FileInfo answer with a documented status and never read outside a buffer; an eslOK from FindName carries a stored record holding exactly the probe key. "
+                  "The model is tied to the working tree on every run by an exact differential run (index bytes and every lookup, damaged indices included) against the ASan/UBSan build, plus an independent oracle on the library's outputs.")
+    level_note = ("Alias lookup assumes AddAlias's documented precondition (the target is a registered primary key); on arbitrary bytes the alias recursion of FindName is shown to end when no stored alias names another stored alias "
+                  "(true of every written index, proved). Former known finding C06:cross-class-duplicate is repaired (cross_duplicate() in esl_newssi_Write); its witness is a regression case and `cross_class_duplicate_rejected` a theorem. "
                   "Trusted: Lean kernel + propext/Classical.choice/Quot.sound; the hand model's fidelity is checked by the differential run, not proved; qsort, sort(1) in the POSIX locale, system(), stdio are modelled (sort = bytewise sort of the lines); "
-                  "little-endian host with 64-bit off_t; esl_ssi_FindSubseq's theorem is for stored primary keys with a registered file handle; corrupt index files are outside the property.")
+                  "little-endian host with 64-bit off_t; esl_ssi_FindSubseq's outcome theorem needs a registered file handle.")
     diverge_is_violation = True
     trusted_base = ["hand model of esl_ssi.c tied by exact differential run (h_ssi.c, ASan+UBSan build of the working tree): index bytes and all lookup results",
                     "Lean compiler/runtime for the executable driver", "gcc, glibc (strcmp, strncpy, qsort, printf/strtoull, stdio), sort(1)"]
@@ -173,10 +175,12 @@ class C06(Prop):
                    "the automatic switch (current_newssi_size() >= max_ram at the start of AddKey/AddAlias) is exercised with max_ram lowered to 1-3 MB through the public field, "
                    "including byte-exact boundaries of the size formula, and the library's `external` flag is compared after every call; the default 2048 MB threshold itself is covered by the theorems only",
                    "not covered: eslEMEM/eslEWRITE paths (allocation and write failures), eslESYS other than sort(1) being unavailable, 32-bit off_t hosts, "
-                   "corrupt index files beyond esl_ssi_Open's header and file-record parse",
-                   "esl_ssi_FindSubseq is modelled with the repaired range test (requested_start < 1 rejected, DESIGN section 7 item 11); start <= 0 is generated and must give eslERANGE"]
+                   "index files in which a stored alias names another stored alias (unbounded recursion of esl_ssi_FindName: outside AddAlias's precondition), offsets >= 2^40 in damaged headers",
+                   "damaged indices (truncated anywhere, records swapped/duplicated/rotated, counts, widths and offsets changed, fields without terminator, zero widths, file handle >= nfiles, rpl = 0) are "
+                   "generated from valid images and every Open/Find*/FileInfo answer is compared exactly with the model",
+                   "esl_ssi_FindSubseq is modelled with the repaired tests (requested_start < 1 rejected; file handle >= nfiles is eslEFORMAT; r == 0 || b == 0 tested before the division); start <= 0 is generated and must give eslERANGE"]
     rule = ("cases = index build histories (files, keys, aliases, optional switch to external sort at a chosen point) + write + reopen + lookups "
-            "of stored keys, aliases, near-miss probes, numbers, file handles; non-trivial = a written index with >= 1 successful lookup; distinct by output trace")
+            "of stored keys, aliases, near-miss probes, numbers, file handles; damaged images + the same lookups; non-trivial = a written index with >= 1 successful lookup; distinct by output trace")
     quick_budget_s = 90
 
     # ------------------------------------------------------------------ generators
@@ -471,51 +475,32 @@ class C06(Prop):
 
     @staticmethod
     def _corrupt_safe(b):
-        """Can the lookups be called on this image without the C code leaving a buffer (the model's `fault`/`nohalt`
-        outcomes: strcmp on a key field without terminator, alias -> alias recursion; for FindSubseq also a stored file
-        handle >= nfiles and fast-subseq geometry with rpl = 0)?  Returns None (do not use the image), or
-        (find_ok, subseq_ok). Mirrors esl_ssi_Open's header parse; `Ssi.Terminated` / `Ssi.NoAliasChain` of Robust.lean."""
+        """Can the lookups be called on this image?  The only outcome of the model that the C code cannot answer with a
+        status is `nohalt` (alias -> alias recursion; `Ssi.NoAliasChain` of Robust.lean excludes it): images in which a
+        stored alias names another stored alias are not used. Unterminated key/name fields, file handles >= nfiles and
+        rpl = 0 are answered with a status since the damaged-index repair. Returns None (do not use the image) or True."""
         import struct
         if len(b) < 78:
-            return (True, True)                   # Open fails: the lookups answer bad-op on both sides
+            return True                           # Open fails: the lookups answer bad-op on both sides
         magic, flags, offsz = struct.unpack(">III", bytes(b[:12]))
         if magic != 0xd3d3c9b3 or offsz != 8:
             return None
         nfiles, np_, ns_, flen, plen, slen, frec, prec, srec, foff, poff, soff = struct.unpack(">HQQIIIIIIQQQ", bytes(b[12:78]))
-        if nfiles == 0:
-            return (True, True)
-        if np_ > 3000 or ns_ > 3000 or nfiles > 64 or max(foff, poff, soff) >= 2**40 or flen == 0:
+        if np_ > 3000 or ns_ > 3000 or nfiles > 64 or max(foff, poff, soff) >= 2**40 or max(flen, plen, slen) > 4096:
             return None
-        fl = []
-        for i in range(nfiles):
-            o = foff + (i * frec) % 2**32
-            if o + flen + 16 > len(b):
-                return (True, True)               # short read in Open
-            fl.append(struct.unpack(">IIII", bytes(b[o + flen:o + flen + 16])))
-        def term(o, n):
-            return n == 0 or o + n > len(b) or 0 in b[o:o + n]
         def cs(o, n):
             x = bytes(b[o:o + n]); return x.split(b"\0")[0]
-        find_ok = all(term(poff + prec * j, plen) for j in range(np_)) and \
-                  all(term(soff + srec * j, slen) and term(soff + srec * j + slen, plen) for j in range(ns_))
-        if find_ok and plen and slen:
-            skeys = {cs(soff + srec * j, slen) for j in range(ns_) if soff + srec * j + slen <= len(b)}
-            targets = {cs(soff + srec * j + slen, plen) for j in range(ns_) if soff + srec * j + slen + plen <= len(b)}
-            if skeys & targets:
-                find_ok = False                   # an alias naming an alias: possible unbounded recursion
-        sub_ok = find_ok and not any((f[1] & 1) and f[3] == 0 for f in fl)
-        if sub_ok:
-            for j in range(np_):
-                o = poff + prec * j + plen
-                if o + 2 <= len(b) and struct.unpack(">H", bytes(b[o:o + 2]))[0] >= nfiles:
-                    sub_ok = False
-        return (find_ok, sub_ok)
+        skeys = {cs(soff + srec * j, slen) for j in range(ns_) if soff + srec * j + slen <= len(b)}
+        targets = {cs(soff + srec * j + slen, plen) for j in range(ns_) if soff + srec * j + slen + plen <= len(b)}
+        if skeys & targets:
+            return None                           # an alias naming an alias: possible unbounded recursion
+        return True
 
     def gen_corrupt(self, rng, name):
         """Open + Find* on TRUNCATED / CORRUPTED / UNSORTED indices (theorems `findName_any_index`, `findName_no_fault`,
         `findNumber_any_index`, `fileInfo_any_index`, `open_any_bytes`): a small valid image is damaged in its key sections,
-        counts, widths or offsets, or cut anywhere; images on which the C code would leave a buffer are filtered out
-        (`_corrupt_safe`); every lookup is compared exactly with the model"""
+        counts, widths or offsets, loses field terminators, or is cut anywhere; only images in which an alias names another alias
+        are filtered out (`_corrupt_safe`); every lookup is compared exactly with the model, under ASan/UBSan"""
         import struct
         kg = KeyGen(rng, 16)
         nfiles = rng.randint(1, 3)
@@ -537,7 +522,7 @@ class C06(Prop):
                 break
             b = bytearray(img)
             kind = rng.choice(["trunc", "trunc", "swapP", "revP", "dupP", "rotP", "swapS", "revS", "dupS", "countP", "countS", "poff", "soff",
-                               "keybyte", "target", "widths", "fh", "geom", "zerofill", "garbage-tail"])
+                               "keybyte", "target", "widths", "fh", "geom", "zerofill", "garbage-tail", "unterm", "unterm", "zerowidth"])
             if kind == "trunc":
                 cut = rng.choice([poff, poff + 1, poff + plen - 1, poff + plen, poff + plen + 1, poff + plen + 2, poff + plen + 10, poff + prec - 1, poff + prec,
                                   soff - 1, soff, soff + 1, soff + slen - 1, soff + slen, soff + slen + plen - 1, len(b) - 1, len(b) - plen,
@@ -590,23 +575,36 @@ class C06(Prop):
             elif kind == "zerofill" and np_:
                 j = rng.randrange(np_)
                 b[poff + prec * j:poff + prec * j + plen] = b"\0" * plen     # an empty key in the middle of the section
+            elif kind == "unterm":
+                # a key / alias / alias-target / file-name field loses its terminator(s): every NUL of the field becomes a letter
+                which = rng.choice(["P", "S", "T", "F"])
+                if which == "P" and np_:
+                    o, n = poff + prec * rng.randrange(np_), plen
+                elif which == "S" and ns_:
+                    o, n = soff + srec * rng.randrange(ns_), slen
+                elif which == "T" and ns_:
+                    o, n = soff + srec * rng.randrange(ns_) + slen, plen
+                else:
+                    o, n = foff + frec * rng.randrange(nf), flen
+                for x in range(o, o + n):
+                    if b[x] == 0: b[x] = rng.choice(LETTERS)
+            elif kind == "zerowidth":
+                put(b, ">I", rng.choice([30, 34, 38]), 0)                  # flen / plen / slen = 0
             elif kind == "garbage-tail":
                 b += bytes(rng.choice(ALLPRINT + b"\0") for _ in range(rng.randint(1, 40)))
             else:
                 continue
-            safe = self._corrupt_safe(b)
-            if safe is None or not safe[0]:
+            if self._corrupt_safe(b) is None:
                 continue
             made += 1
             ops.append("openraw hex=%s" % hx(bytes(b)))
             look = ["find k=%s" % hx(p) for p in probes] + ["findq k=%s" % hx(p) for p in probes[:3]]
             look += ["findnum i=%d" % i for i in list(range(-1, np_ + 3)) + [np_ + ns_, np_ + 50, 2**63 - 1, -2**63]]
             look += ["fileinfo fh=%d" % fh for fh in range(nf + 2)]
-            if safe[1]:
-                for k in (sorted(pk)[:3] + sorted(al)[:2]):
-                    for st in (0, 1, 2, 61, 120, pk[k][3] if k in pk else 5, 2**63 - 1):
-                        if st <= 2**63 - 1:
-                            look.append("subseq k=%s start=%d" % (hx(k), st))
+            for k in (sorted(pk)[:3] + sorted(al)[:2]):
+                for st in (0, 1, 2, 61, 120, pk[k][3] if k in pk else 5, 2**63 - 1):
+                    if st <= 2**63 - 1:
+                        look.append("subseq k=%s start=%d" % (hx(k), st))
             if rng.random() < 0.5:
                 rng.shuffle(look)
             ops += look + ["close"]
